@@ -5,7 +5,7 @@ ID = "C07"
 GEN = "c07"
 HARNESS_TEST = "TestC07"
 COQ_MODEL = ["C07/Check.v", "Gen/C07Facts.v"]
-COQ_PROOF_DEPS = ["C07/Proofs.v"]
+COQ_PROOF_DEPS = ["C07/Proofs.v", "C07/ProofsNonvacuous.v"]
 COQ_OBLIG = ["C07/Property.v", "Gen/C07Oblig.v"]
 CASES_HEADER = "Require Import Nib.C07.Model Nib.C07.Spec Nib.C07.Check Nib.C07.Facts Nib.Gen.C07Facts."
 CASE_TYPE = "case"
